@@ -1,5 +1,5 @@
 (* Corr/C03.v — case runner for names on the wire. *)
-From Dns Require Import Model.NameWire.
+From Dns Require Import Model.NameWire Corr.Wire.
 Open Scope N_scope.
 
 Definition show_unpack (r : res (bytes * N)) : string :=
@@ -12,4 +12,4 @@ Definition run (fn : string) (args : list string) : string :=
   else if String.eqb fn "pack" then show_pack (pack_name_plain (unhex (arg args 0)) (undec (arg args 1)))
   else if String.eqb fn "idn" then show_idn (is_domain_name (unhex (arg args 0)))
   else if String.eqb fn "fqdn" then showb (is_fqdn (unhex (arg args 0)))
-  else "unknown-fn"%string.
+  else match run_wire fn args with Some r => r | None => "unknown-fn"%string end.
